@@ -18,10 +18,19 @@ band matrix at least `LDiags + UDiags` (true of every matrix `resize` or `submat
 Before the repairs the dense paths needed "all strides positive" (`…_partial`), see the note at the end of this
 file and `AdeptProofs/Refute/Matmul.lean`.
 
+The derivative clause: `gemvRecord` / `gemmRecord` / `bandVRecord` transcribe the recording loops of matmul.h literally
+(gradient index arithmetic with the operands' offsets, multiplier addresses into the operands' memory); `C15_tape_*` give
+their closed forms (left-hand side = gradient index of the result element, operations exactly
+`{(B[k,j], gidx A[i,k])} ∪ {(A[i,k], gidx B[k,j])}`, for a band matrix the in-band `k` only), `C15_stmt_differential_*`
+show that such a statement denotes the differential of the defining sum, and `C15_active_derivative_*` run the
+tangent-linear sweep over EVERYTHING a product records — the element-wise copies of doubly strided operands
+included — and obtain `Σₖ B[k,j]·dA[i,k] + A[i,k]·dB[k,j]` in terms of the ORIGINAL operands' gradient cells, for every
+layout.  The check compares the model's statements with the implementation's tape exactly on every active case.
+
 Not proved here (correspondence and oracle only): `reads_within` for the band · matrix form (it is proved for the
-band · vector call, of which the matrix form issues one per column), the derivative statements of the
-band · active-vector path (not modelled), and the conversions `promote_array` performs before `matmul_` is entered
-(expressions, active or square / triangular special matrices, fixed arrays: Driver/Matmul.lean).
+band · vector call, of which the matrix form issues one per column), and the conversions `promote_array` performs before
+`matmul_` is entered (expressions, active or square / triangular special matrices, fixed arrays: Driver/Matmul.lean;
+their statements — one per element, multiplier 2 resp. 1, empty for structural zeros — are part of the compared tape).
 -/
 namespace Adept.Matmul
 open Adept.Blas
@@ -327,6 +336,170 @@ theorem C15_active_product_mv [Add α] [Mul α] [Zero α] (lAct rAct : Bool) (L 
       (if rAct then (List.range x.v.d).map (fun l => (L.get i l, x.buf, x.v.addr l)) else []) :=
   gemvOps_eq lAct rAct L x i
 
+/-! ## active operands: the recorded statements, literally transcribed, and what they denote -/
+
+omit [CommRing α] in
+/-- **tape (matrix · matrix).**  The loop `matmul_(Array<2>,Array<2>)` runs after ?GEMM records, for ALL extents and ALL
+    offsets of either sign (transposed, strided, reversed operands; `gl`/`gr` say which operands are active and where
+    their gradient blocks lie), one statement per result element in row-major order; the statement of `(i,j)` has the
+    left-hand side `gidx C[i,j]` and the operations `(R[k,j], gidx L[i,k])`, `k < n`, if the left operand is active,
+    followed by `(L[i,k], gidx R[k,j])`, `k < n`, if the right one is — nothing else. -/
+theorem C15_tape_mm [Add α] [Mul α] [Zero α] (gl gr : Grad) (L Rm : Mat α) (ans : View2) :
+    gemmRecord gl gr L Rm ans =
+      if gl.act || gr.act then
+        pairs ans.d0 ans.d1 (fun (i j : Nat) =>
+          ({ lhs := ⟨.C, ans.addr i j⟩,
+             ops := (if gl.act then (List.range Rm.v.d0).map (fun (k : Nat) => (Rm.get k j, gl.idx (L.v.addr i k))) else []) ++
+                    (if gr.act then (List.range Rm.v.d0).map (fun (k : Nat) => (L.get i k, gr.idx (Rm.v.addr k j))) else []) } : Stmt α))
+      else [] :=
+  gemmRecord_eq gl gr L Rm ans
+
+omit [CommRing α] in
+/-- **tape (matrix · vector).**  Same for `matmul_(Array<2>,Array<1>)`; vector · matrix is recorded by the same loop
+    on `(right.T(), left)`. -/
+theorem C15_tape_mv [Add α] [Mul α] [Zero α] (gl gr : Grad) (L : Mat α) (x : Vec α) (ans : View1) :
+    gemvRecord gl gr L x ans =
+      if gl.act || gr.act then
+        (List.range ans.d).map (fun (i : Nat) =>
+          ({ lhs := ⟨.C, ans.addr i⟩,
+             ops := (if gl.act then (List.range x.v.d).map (fun (k : Nat) => (x.get k, gl.idx (L.v.addr i k))) else []) ++
+                    (if gr.act then (List.range x.v.d).map (fun (k : Nat) => (L.get i k, gr.idx (x.v.addr k))) else []) } : Stmt α))
+      else [] :=
+  gemvRecord_eq gl gr L x ans
+
+omit [CommRing α] in
+/-- **tape (band · active vector).**  For ALL `(dim, LDiags, UDiags)`, both storage orders of the band matrix and any
+    stride of the vector the loops of `matmul_band` record, per row `i`, the left-hand side `gidx C[i]` and the
+    operations `(B.mem(index(i,k)), gidx x[k])` for `k = j_start … j_end_plus_1−1` (ascending), `index` being
+    `BandEngine<Order>::index`; and for a row `i < dim` that range is EXACTLY the set of in-band columns, where
+    `B.mem(index(i,k)) = B[i,k]`. -/
+theorem C15_tape_band [Add α] [Mul α] [Zero α] (b : Band α) (gr : Grad) (x : Vec α) (ans : View1) :
+    bandVRecord b gr x ans =
+      (if gr.act then
+        (List.range ans.d).map (fun (i : Nat) =>
+          ({ lhs := ⟨.C, ans.addr i⟩,
+             ops := (List.range (bandJEnd b.ku b.dim i - bandJStart b.kl i)).map (fun (l : Nat) =>
+                      (b.mem (b.cell i (bandJStart b.kl i + l)), gr.idx (x.v.addr (bandJStart b.kl i + l)))) } : Stmt α))
+      else []) ∧
+    ∀ i k, i < b.dim →
+      ((bandJStart b.kl i ≤ k ∧ k < bandJEnd b.ku b.dim i) ↔ (k < b.dim ∧ k ≤ i + b.ku ∧ i ≤ k + b.kl)) ∧
+      ((k ≤ i + b.ku ∧ i ≤ k + b.kl) → b.mem (b.cell i k) = b.get i k) := by
+  refine ⟨bandVRecord_eq b gr x ans, fun i k hi => ⟨band_range_iff hi k, fun h => ?_⟩⟩
+  unfold Band.get
+  rw [if_neg (by omega)]
+
+/-- **the differential of the defining sum.**  In any commutative ring, perturbing the factors of `Σₖ aₖ·bₖ` by
+    `ε·da`, `ε·db` changes the sum by `ε·Σₖ (bₖ·daₖ + aₖ·dbₖ)` plus a term in `ε²`: the first-order coefficient — the
+    differential — is the linear form with the coefficients `bₖ` on `daₖ` and `aₖ` on `dbₖ`. -/
+theorem C15_defining_sum_differential (a b da db : Nat → α) (e : α) (n : Nat) :
+    sumTo (fun k => (a k + e * da k) * (b k + e * db k)) n =
+      sumTo (fun k => a k * b k) n + e * sumTo (fun k => b k * da k + a k * db k) n + e * e * sumTo (fun k => da k * db k) n :=
+  sumTo_product_rule a b da db e n
+
+/-- **a dense statement denotes that differential.**  For any assignment `d` of differentials to gradient indices the
+    statement recorded for `(i,j)` (closed form of `C15_tape_mm`) evaluates to
+    `Σₖ R[k,j]·d(gidx L[i,k]) + L[i,k]·d(gidx R[k,j])`, the terms of a passive operand dropped. -/
+theorem C15_stmt_differential_mm (gl gr : Grad) (L Rm : Mat α) (ans : View2) (i j : Nat) (d : Ptr → α) :
+    (({ lhs := ⟨.C, ans.addr i j⟩,
+        ops := (if gl.act then (List.range Rm.v.d0).map (fun (k : Nat) => (Rm.get k j, gl.idx (L.v.addr i k))) else []) ++
+               (if gr.act then (List.range Rm.v.d0).map (fun (k : Nat) => (L.get i k, gr.idx (Rm.v.addr k j))) else []) } : Stmt α).diff d) =
+      sumTo (fun k => (if gl.act then Rm.get k j * d (gl.idx (L.v.addr i k)) else 0) +
+                      (if gr.act then L.get i k * d (gr.idx (Rm.v.addr k j)) else 0)) Rm.v.d0 :=
+  gemm_stmt_diff gl gr L Rm i j d
+
+/-- **a band statement denotes the differential over ALL columns.**  The statement of row `i < dim` evaluates to
+    `Σ_{k<dim} B[i,k]·d(gidx x[k])`: the columns it omits are exactly those where `B[i,k]` is structurally zero. -/
+theorem C15_stmt_differential_band (b : Band α) (gr : Grad) (x : Vec α) (ans : View1) {i : Nat} (hi : i < b.dim) (d : Ptr → α) :
+    (({ lhs := ⟨.C, ans.addr i⟩,
+        ops := (List.range (bandJEnd b.ku b.dim i - bandJStart b.kl i)).map (fun (l : Nat) =>
+                 (b.mem (b.cell i (bandJStart b.kl i + l)), gr.idx (x.v.addr (bandJStart b.kl i + l)))) } : Stmt α).diff d) =
+      sumTo (fun k => b.get i k * d (gr.idx (x.v.addr k))) b.dim :=
+  band_stmt_diff b gr x hi d
+
+/-- **active_derivative (matrix · matrix), end to end.**  Run the tangent-linear sweep (`fwd`, what
+    `Stack::compute_tangent_linear` does) over EVERYTHING `matmul_(Array<2>,Array<2>)` records — the element-wise copy
+    statements of an operand that is strided in both directions (left, right or both; their gradient blocks `T`
+    allocated one after the other from `T+t`) followed by the statements of the result elements — starting from any
+    differentials `d`: the gradient index of result element `(i,j)` ends up holding
+    `Σₖ R[k,j]·d(gidx L[i,k]) + L[i,k]·d(gidx R[k,j])` with `gidx` of the operands AS PASSED, for all extents, all offsets
+    and every activity pattern with at least one active operand.  `GradOutside g A t`: the operand's gradient indices are
+    not result indices and, if they are `T` indices (an operand converted by `promote_array`), lie below `t`; operands
+    whose gradients live in the caller's blocks `L`, `R` satisfy it for every `t` (`C15_operand_gradients_outside`). -/
+theorem C15_active_derivative_mm {pw : Nat} (hpw : 1 ≤ pw) (gl gr : Grad) (t : Int) (L Rm : Mat α)
+    (hgl : GradOutside gl L t) (hgr : GradOutside gr Rm t)
+    (hact : (gl.act || gr.act) = true) (hkk : L.v.d1 = Rm.v.d0) (d : Ptr → α) {i j : Nat} (hi : i < L.v.d0) (hj : j < Rm.v.d1) :
+    fwd (matmulMMTape pw gl gr t L Rm) d ⟨.C, (gemmDense pw (prep pw L) (prep pw Rm)).ans.v.addr i j⟩ =
+      sumTo (fun k => (if gl.act then Rm.get k j * d (gl.idx (L.v.addr i k)) else 0) +
+                      (if gr.act then L.get i k * d (gr.idx (Rm.v.addr k j)) else 0)) L.v.d1 :=
+  matmulMMTape_fwd hpw gl gr t L Rm hgl hgr hact hkk d hi hj
+
+/-- **active_derivative (matrix · vector), end to end**, the copy of a doubly strided matrix and the gradient indices of
+    the abandoned outer result array included; any stride of the vector (negative: the multipliers are read from
+    `const_data()`, not from the BLAS start pointer). -/
+theorem C15_active_derivative_mv {pw : Nat} (hpw : 1 ≤ pw) (gl gr : Grad) (t : Int) (L : Mat α) (x : Vec α)
+    (hgl : GradOutside gl L t) (hgr : GradOutsideV gr x t)
+    (hact : (gl.act || gr.act) = true) (hkk : L.v.d1 = x.v.d) (d : Ptr → α) {i : Nat} (hi : i < L.v.d0) :
+    fwd (matmulMVTape pw gl gr t L x) d ⟨.C, (gemvDense (prep pw L) x).ans.v.addr i⟩ =
+      sumTo (fun k => (if gl.act then x.get k * d (gl.idx (L.v.addr i k)) else 0) +
+                      (if gr.act then L.get i k * d (gr.idx (x.v.addr k)) else 0)) L.v.d1 :=
+  matmulMVTape_fwd hpw gl gr t L x hgl hgr hact hkk d hi
+
+/-- **active_derivative (vector · matrix), end to end.** -/
+theorem C15_active_derivative_vm {pw : Nat} (hpw : 1 ≤ pw) (gl gr : Grad) (t : Int) (x : Vec α) (Rm : Mat α)
+    (hgl : GradOutsideV gl x t) (hgr : GradOutside gr Rm t)
+    (hact : (gl.act || gr.act) = true) (hkk : x.v.d = Rm.v.d0) (d : Ptr → α) {j : Nat} (hj : j < Rm.v.d1) :
+    fwd (matmulVMTape pw gl gr t x Rm) d ⟨.C, (gemvDense (prep pw Rm.T) x).ans.v.addr j⟩ =
+      sumTo (fun k => (if gl.act then Rm.get k j * d (gl.idx (x.v.addr k)) else 0) +
+                      (if gr.act then x.get k * d (gr.idx (Rm.v.addr k j)) else 0)) Rm.v.d0 :=
+  matmulVMTape_fwd hpw gl gr t x Rm hgl hgr hact hkk d hj
+
+/-- **active_derivative (band · active vector and active vector · band), end to end**: for every `(dim, LDiags, UDiags)`,
+    both storage orders and any stride of the vector the sweep leaves `Σ_{k<dim} B[i,k]·d(gidx x[k])` in the gradient
+    index of result element `i`, resp. `Σ_{k<dim} B[k,i]·d(gidx x[k])` for the vector · band form, which matmul.h records
+    through the transposed description of the band matrix (other storage order, `LDiags` and `UDiags` exchanged). -/
+theorem C15_active_derivative_band (b : Band α) (g : Grad) (hg : g.blk ≠ .C) (x : Vec α) (hact : g.act = true)
+    (hd : b.dim = x.v.d) (d : Ptr → α) {i : Nat} (hi : i < b.dim) :
+    fwd (matmulBandVTape b g x) d ⟨.C, (bandVCore b x).ans.v.addr i⟩ = sumTo (fun k => b.get i k * d (g.idx (x.v.addr k))) b.dim ∧
+    fwd (matmulVBandTape g x b) d ⟨.C, (bandVCore b.T x).ans.v.addr i⟩ = sumTo (fun k => b.get k i * d (g.idx (x.v.addr k))) b.dim :=
+  ⟨matmulBandVTape_fwd b g hg x hact hd d hi, matmulVBandTape_fwd b g hg x hact hd d hi⟩
+
+/-- **operands of the caller.**  An operand whose gradient block is the left or the right parent's satisfies the
+    hypothesis of the `active_derivative` theorems for every `t`. -/
+theorem C15_operand_gradients_outside {g : Grad} (hg : g.blk = .L ∨ g.blk = .R) (A : Mat α) (x : Vec α) (t : Int) :
+    GradOutside g A t ∧ GradOutsideV g x t :=
+  ⟨GradOutside.of_operand hg A t, GradOutsideV.of_operand hg x t⟩
+
+/-- **conversion statements (`promote_array`, copies).**  The element-wise evaluation of an active expression, special
+    matrix or doubly strided array into a fresh packed `d0 × d1` array with gradient block `T+t …` (`convRecord`: one
+    statement per element, operations `src i k`, which do not read what the conversion assigns): after the sweep the
+    gradient index of element `(i,k)` holds `Σ src i k` and nothing outside `T ∩ [t, t + offset(0)·d0)` has changed. -/
+theorem C15_conversion_statements {pw : Nat} (hpw : 1 ≤ pw) (d0 d1 : Nat) (t : Int) (src : Nat → Nat → List (α × Ptr))
+    (hsrc : ∀ i k, i < d0 → k < d1 → ∀ op ∈ src i k, op.2.buf ≠ .T ∨ op.2.off < t) (d : Ptr → α) :
+    (∀ p : Ptr, (p.buf ≠ .T ∨ p.off < t ∨ t + (packRowMajor pw d0 d1).o0 * (d0 : Int) ≤ p.off) →
+        fwd (convRecord (packRowMajor pw d0 d1) t d0 d1 src) d p = d p) ∧
+    (∀ i k, i < d0 → k < d1 →
+        fwd (convRecord (packRowMajor pw d0 d1) t d0 d1 src) d ⟨.T, t + (packRowMajor pw d0 d1).addr i k⟩ =
+          (src i k).foldr (fun p acc => p.1 * d p.2 + acc) 0) :=
+  convRecord_spec hpw d0 d1 t src hsrc d
+
+/-- **active_derivative through a conversion.**  An ACTIVE left operand that `promote_array` evaluated element-wise into
+    the fresh array `X` (values `lval`, statements `src`: `[(2, gidx A[i,k])]` for `2.0*A`, `[(1,·),(1,·)]` for `A+A`,
+    `[(1, gidx S[i,k])]` resp. `[]` for a stored resp. structurally zero element of a special matrix) times any dense
+    matrix: the sweep over the conversion statements followed by everything the product records leaves
+    `Σₖ R[k,j]·(Σ src i k) + X[i,k]·d(gidx R[k,j])` — the differentials flow through the conversion whatever its
+    operations are.  (The other forms follow in the same way from `C15_conversion_statements` and the
+    `active_derivative` theorems, whose hypotheses allow converted operands.) -/
+theorem C15_active_derivative_promoted_mm {pw : Nat} (hpw : 1 ≤ pw) (d0 d1 : Nat) (lval : Nat → Nat → α)
+    (src : Nat → Nat → List (α × Ptr)) (hsrc : ∀ i k, i < d0 → k < d1 → ∀ op ∈ src i k, op.2.buf ≠ .T ∨ op.2.off < 0)
+    (gr : Grad) (hgr : gr.blk = .L ∨ gr.blk = .R) (Rm : Mat α) (hkk : d1 = Rm.v.d0) (d : Ptr → α)
+    {i j : Nat} (hi : i < d0) (hj : j < Rm.v.d1) :
+    fwd (convRecord (packRowMajor pw d0 d1) 0 d0 d1 src ++
+         matmulMMTape pw ⟨true, .T, 0⟩ gr ((packRowMajor pw d0 d1).o0 * (d0 : Int)) (freshMat pw d0 d1 lval) Rm) d
+        ⟨.C, (gemmDense pw (prep pw (freshMat pw d0 d1 lval)) (prep pw Rm)).ans.v.addr i j⟩ =
+      sumTo (fun k => Rm.get k j * (src i k).foldr (fun p acc => p.1 * d p.2 + acc) 0 +
+                      (if gr.act then lval i k * d (gr.idx (Rm.v.addr k j)) else 0)) d1 :=
+  promotedMM_fwd hpw d0 d1 lval src hsrc gr hgr Rm hkk d hi hj
+
 /-! ## non-vacuity
 
 The hypotheses are met by ordinary operands; two concrete instances over `Int` in which the model is evaluated:
@@ -346,6 +519,32 @@ example :
     (match matmulMV 2 { v := { base := 6, d0 := 3, d1 := 3, o0 := 1, o1 := -3 }, mem := memA, buf := .L }
                       { v := { base := 0, d := 3, o := 1 }, mem := memV, buf := .R } with
      | .ok o => [o.ans.get 0, o.ans.get 1, o.ans.get 2] | .error _ => []) = [147, 258, 370] := by decide
+
+/-- an active doubly strided left operand (every second column of a 2×4 row-major array: copied) times an active
+    column-major 2×2 matrix: the sweep over copy + product statements leaves `∂C[0,0]/∂L[0,1] = R[1,0] = 2` and
+    `∂C[1,1]/∂R[0,1] = L[1,0] = 5` -/
+example :
+    let Lx : Mat Int := { v := { base := 0, d0 := 2, d1 := 2, o0 := 4, o1 := 2 }, mem := fun p => [1, 2, 3, 4, 5, 6, 7, 8].getD p.toNat 0, buf := .L }
+    let Rx : Mat Int := { v := { base := 0, d0 := 2, d1 := 2, o0 := 1, o1 := 2 }, mem := fun p => [1, 2, 3, 4].getD p.toNat 0, buf := .R }
+    (matmulMMTape 2 ⟨true, .L, 0⟩ ⟨true, .R, 0⟩ 0 Lx Rx).length = 8 ∧
+    fwd (matmulMMTape 2 ⟨true, .L, 0⟩ ⟨true, .R, 0⟩ 0 Lx Rx) (fun p => if p = ⟨.L, 2⟩ then 1 else 0) ⟨.C, 0⟩ = 2 ∧
+    fwd (matmulMMTape 2 ⟨true, .L, 0⟩ ⟨true, .R, 0⟩ 0 Lx Rx) (fun p => if p = ⟨.R, 2⟩ then 1 else 0) ⟨.C, 3⟩ = 5 := by decide
+
+/-- the active expression `2.0*A` (A row-major 1×2 with the cells `[3, 4]`) times a passive 2×1 matrix `[5, 6]ᵀ`: conversion
+    statements `T+k = 2·L+k`, then `C+0 = 5·T+0 + 6·T+1`; `∂C[0,0]/∂A[0,1] = 2·6 = 12` -/
+example :
+    let Rx : Mat Int := { v := { base := 0, d0 := 2, d1 := 1, o0 := 1, o1 := 1 }, mem := fun p => [5, 6].getD p.toNat 0, buf := .R }
+    fwd (convRecord (packRowMajor 2 1 2) 0 1 2 (fun _ k => [((2 : Int), (⟨.L, (k : Int)⟩ : Ptr))]) ++
+         matmulMMTape 2 ⟨true, .T, 0⟩ ⟨false, .R, 0⟩ 2 (freshMat 2 1 2 (fun _ k => 2 * [3, 4].getD k 0)) Rx)
+      (fun p => if p = ⟨.L, 1⟩ then 1 else 0) ⟨.C, 0⟩ = 12 := by decide
+
+/-- a passive row-major band matrix with one sub- and two super-diagonals times a reversed active vector: row 2 of the
+    3×3 matrix has the in-band columns 1, 2 only -/
+example :
+    let bx : Band Int := { base := 0, rowMajor := true, kl := 1, ku := 2, dim := 3, off := 3, mem := fun p => [1, 2, 3, 4, 5, 6, 7, 8, 9].getD p.toNat 0, buf := .L }
+    let xx : Vec Int := { v := { base := 2, d := 3, o := -1 }, mem := fun p => [5, 6, 7].getD p.toNat 0, buf := .R }
+    ((matmulBandVTape bx ⟨true, .R, 0⟩ xx).map (fun s => s.ops.length)) = [3, 3, 2] ∧
+    fwd (matmulBandVTape bx ⟨true, .R, 0⟩ xx) (fun p => if p = ⟨.R, 0⟩ then 1 else 0) ⟨.C, 2⟩ = 9 := by decide
 
 /-! ## note on the unrepaired tree
 
